@@ -428,6 +428,54 @@ def _structure_continue(stmts):
     return out
 
 
+def _structure_exits(stmts, after):
+    """one (unrolled) iteration of a loop whose body uses `break` (and `continue`), followed by the already structured later iterations `after`:
+    `continue` skips to `after`, `break` skips `after` as well.  What follows an `if` that leaves the iteration moves under its other branch."""
+    def has_exit(block):
+        for x in block:
+            if isinstance(x, (ast.Break, ast.Continue)):
+                return True
+            if isinstance(x, ast.If) and (has_exit(x.body) or has_exit(x.orelse)):
+                return True
+            if isinstance(x, (ast.With, ast.Try)) and has_exit(getattr(x, 'body', [])):
+                raise AnalysisError(f'line {x.lineno}: break / continue inside with / try in an unrolled loop - not modelled')
+        return False
+
+    def always_exits(block):
+        for x in block:
+            if isinstance(x, (ast.Break, ast.Continue)):
+                return True
+            if isinstance(x, ast.If) and x.orelse and always_exits(x.body) and always_exits(x.orelse):
+                return True
+        return False
+
+    def seq(block, after_):
+        res = []
+        for i, x in enumerate(block):
+            if isinstance(x, ast.Continue):
+                return res + after_
+            if isinstance(x, ast.Break):
+                return res
+            if isinstance(x, ast.If) and (has_exit(x.body) or has_exit(x.orelse)):
+                rest = block[i + 1:]
+                eb, ee = always_exits(x.body), bool(x.orelse) and always_exits(x.orelse)
+                if eb and not ee:
+                    res.append(ast.If(test=x.test, body=seq(x.body, after_) or [ast.Pass()], orelse=seq(list(x.orelse) + rest, after_)))
+                elif ee and not eb:
+                    res.append(ast.If(test=x.test, body=seq(list(x.body) + rest, after_) or [ast.Pass()], orelse=seq(x.orelse, after_)))
+                elif eb and ee:
+                    res.append(ast.If(test=x.test, body=seq(x.body, after_) or [ast.Pass()], orelse=seq(x.orelse, after_)))
+                else:
+                    raise AnalysisError(f'line {x.lineno}: a conditional break / continue nested deeper than one `if` in an unrolled loop - not modelled')
+                return res
+            res.append(x)
+        return res + after_
+    out = seq(stmts, after)
+    for x in out:
+        ast.fix_missing_locations(x)
+    return out
+
+
 class Normalizer:
     def __init__(self, module_tree, walker_name):
         self.helpers = {}
@@ -602,8 +650,15 @@ class Normalizer:
             st.iter = self.const_seqs[st.iter.id]
         if isinstance(st, ast.For) and isinstance(st.iter, (ast.Tuple, ast.List)) and st.iter.elts and \
                 all(isinstance(e, ast.Constant) for e in st.iter.elts) and isinstance(st.target, ast.Name) and not st.orelse \
-                and not any(isinstance(x, ast.Break) for x in ast.walk(st)) \
-                and not any(isinstance(x, ast.Continue) for inner in ast.walk(st) if isinstance(inner, (ast.For, ast.While)) and inner is not st for x in ast.walk(inner)):
+                and not any(isinstance(x, (ast.Continue, ast.Break)) for inner in ast.walk(st) if isinstance(inner, (ast.For, ast.While)) and inner is not st
+                            for x in ast.walk(inner)):
+            if any(isinstance(x, ast.Break) for x in ast.walk(st)):
+                # with `break`: the later iterations run only on the paths that do not break - built from the last iteration backwards
+                after = []
+                for e in reversed(st.iter.elts):
+                    body = [_Subst({st.target.id: e}).visit(b) for b in clone(st.body)]
+                    after = _structure_exits(body, after)
+                return self.block(after)
             out = []
             for e in st.iter.elts:
                 body = _structure_continue(clone(st.body))
